@@ -768,9 +768,12 @@ class Blockwise(ArrayExpr):
                     return None  # Non-unit step not supported
 
                 first, last = find_block_range(cumsum, start, stop)
-                if first is None:
-                    block_ranges.append((0, -1))  # Empty
-                    output_adjustments.append(slice(0, 0))
+                if first is None or last < first:
+                    # An empty selection needs no input block at all, which
+                    # the per-block ``adjust_chunks`` cannot express (it would
+                    # keep describing the blocks that were dropped): leave the
+                    # slice on top of this node.
+                    return None
                 else:
                     block_ranges.append((first, last))
                     coarse_start = int(cumsum[first])
